@@ -54,15 +54,15 @@ type Run struct {
 	Prog     *Prog
 	Start    time.Time
 
-	Rules  map[string]*RuleInfo
-	order  []string
-	Obls   []*Obligation
-	seen   map[string]int
-	Stats  map[string]int
-	Notes  []string
+	Rules map[string]*RuleInfo
+	order []string
+	Obls  []*Obligation
+	seen  map[string]int
+	Stats map[string]int
+	Notes []string
 	// NoPosex: positive examples were not injected; do not demand that they be flagged.
 	NoPosex bool
-	Extras map[string]interface{}
+	Extras  map[string]interface{}
 }
 
 func NewRun(prop, tier string, p *Prog) *Run {
